@@ -28,7 +28,7 @@ TECHNIQUE = ("symbolic execution (zsym/z3) of convenience.extract / analyze_impl
 
 NBITS = {"quick": 8, "thorough": 11}
 SOURCES = ["dup_add", "identity", "dup_initializers", "if_capture", "nested_if", "loop", "init_inputs", "alias_outputs", "multi_output",
-           "fn:functions:outer", "fn:functions:scale", "view:if_capture", "view:dup_add"]
+           "fn:functions:outer", "fn:functions:scale", "view:if_capture", "view:dup_add", "viewperm:dup_add", "viewperm:multi_output", "viewsorted:unsorted"]
 
 
 # ---------------------------------------------------------------------------------------------
@@ -145,6 +145,37 @@ def source(key, P=None):
         g = m.graph
         view = ir.GraphView(list(g.inputs), list(g.outputs), nodes=list(g), initializers=list(g.initializers.values()), name=g.name, opset_imports=g.opset_imports)
         return view, g, m
+    if key.startswith("viewperm:"):
+        # a view that lists the nodes of its graph in ANOTHER (still topological) order: the result follows the view
+        m = models.build(key[9:])
+        g = m.graph
+        nodes = list(g)
+        order = nodes[:]
+        for i in range(len(order) - 1):
+            a_, b_ = order[i], order[i + 1]
+            if not any(v is not None and v.producer() is a_ for v in b_.inputs):
+                order[i], order[i + 1] = b_, a_
+                break
+        view = ir.GraphView(list(g.inputs), list(g.outputs), nodes=order, initializers=list(g.initializers.values()), name=g.name, opset_imports=g.opset_imports)
+        return view, g, m
+    if key.startswith("viewsorted:"):
+        # a topologically ordered view of a graph that is stored out of order
+        m = models.build(key[11:])
+        g = m.graph
+        order, placed = [], set()
+        pending = list(g)
+        while pending:
+            for n in pending:
+                if all(v is None or v.producer() is None or id(v.producer()) in placed or v.producer() not in pending for v in n.inputs):
+                    order.append(n)
+                    placed.add(id(n))
+                    pending.remove(n)
+                    break
+            else:
+                order.extend(pending)
+                break
+        view = ir.GraphView(list(g.inputs), list(g.outputs), nodes=order, initializers=list(g.initializers.values()), name=g.name, opset_imports=g.opset_imports)
+        return view, g, m
     if key == "symbolic-captures":
         m = build_symbolic(P)
         return m.graph, m.graph, m
@@ -225,6 +256,9 @@ def check_extract(key, P):
     if byname and any(v.name in (None, "") for v in ins + outs):
         return True, dict(problems=[], skipped="unnamed value")
     ref_nodes, ref_inits, uncovered = reference_slice(g, ins, outs)
+    src_order = {id(n): i for i, n in enumerate(graph_like)}
+    if all(id(n) in src_order for n in ref_nodes):
+        ref_nodes = sorted(ref_nodes, key=lambda n: src_order[id(n)])    # "original order" = the order in which the source lists its nodes
     src_ids = universe_ids(g)
     arg_in = [v.name for v in ins] if byname else list(ins)
     arg_out = [v.name for v in outs] if byname else list(outs)
@@ -344,7 +378,7 @@ def keys_for(tier):
         k = len(scope_values(g))
         for o1 in range(k):
             keys.append(("extract", s, o1))
-        if not s.startswith(("fn:", "view:")):
+        if not s.startswith(("fn:", "view")):
             keys.append(("implicit", s))
     # symbolic captures: one shard per output selector
     for o1 in (5, 6, 7, 8, 9):
